@@ -554,6 +554,109 @@ def rhs(rng, A, n, ncol, cls):
     return [rng.normal() * s for _ in range(n * ncol)]
 
 
+# ---------------------------------------------------------------- generic strata (tools/GENERIC_STRATA.md)
+BOUNDARY_N = [1, 2, 3, 4, 7, 8, 9, 15, 16, 17, 24, 25, 31, 32]
+SPECIALS = [0.0, -0.0, 1.0, -1.0, 2.0, 3.0, 0.5, 1.5, -2.5, 1.0 / 3.0, 2.0 / 3.0, 1.0 + 2.0 ** -52, 1.0 - 2.0 ** -53,
+            2.0 - 2.0 ** -52, 1024.0, 2.0 ** -10, 4.0, -3.0, 7.0, 0.1]
+
+
+def g_special(rng, n):
+    """entries from exact special values, about half of them exact zeros (+0 and -0), possibly a zero diagonal,
+    made non-singular and moderately conditioned by a +-4 on a random permutation pattern"""
+    for _ in range(20):
+        A = [rng.choice(SPECIALS) if rng.chance(0.5) else rng.choice([0.0, -0.0]) for _ in range(n * n)]
+        perm = rng.shuffle(list(range(n)))
+        if rng.chance(0.3):
+            perm = [n - 1 - i for i in range(n)]       # anti-diagonal: every diagonal entry may stay zero
+        for i in range(n):
+            A[i * n + perm[i]] += rng.choice([-4.0, 4.0]) * (1.0 + 0.5 * (i % 3))
+        if cond_inf(A, n) < 1e6:
+            return A
+    return [4.0 if i == j else 0.0 for i in range(n) for j in range(n)]
+
+
+def special_rhs(rng, n, ncol):
+    pool = SPECIALS + [1e-290, -1e-290, 1e200, 5.0, -7.0]
+    col_scale = [rng.choice([1.0, 1.0, 1e-290, 1e200]) for _ in range(ncol)]
+    return [(rng.choice(SPECIALS) or 0.0) * col_scale[c] if rng.chance(0.7) else rng.normal() * col_scale[c]
+            for _ in range(n) for c in range(ncol)]
+
+
+def eps_band_matrices(rng):
+    """SPD-looking matrices whose (i,j)/(j,i) pair differs by exactly 0.25, 0.5, 1, 1.25, 2 x EPSILON (the
+    is_symmetric threshold), and ones with a diagonal entry of 0, -0, +-1e-300 (the `<= 0` test)"""
+    out = []
+    for k in (1, 2, 4, 5, 8):
+        n = rng.randint(2, 6)
+        A = g_diagdom(rng, n, True)
+        i, j = 0, n - 1
+        A[i * n + j] = 0.25
+        A[j * n + i] = 0.25 + k * 2.0 ** -54
+        out.append((n, A))
+    for d in (0.0, -0.0, 1e-300, -1e-300, 5e-324):
+        n = rng.randint(2, 6)
+        A = g_diagdom(rng, n, True)
+        A[(n - 1) * n + n - 1] = d
+        out.append((n, A))
+    return out
+
+
+def strata(rng, tier, lines, cover):
+    def cnt(k):
+        cover[k] = cover.get(k, 0) + 1
+
+    for rep in range(1 if tier == "quick" else 4):
+        # size boundaries x right-hand-side shapes with 1 < nsys != n, nsys > n, and a dimension of 1
+        for n in BOUNDARY_N:
+            for cls in ("dense", "spd"):
+                A = CLASSES[cls](rng, n)
+                opts = [2, 3, n + 1, 7, 8, 9] + ([n - 1] if n > 2 else []) + ([2 * n, 2 * n + 1] if n <= 9 else [])
+                ncol = rng.choice([c for c in opts if c != n and c > 1])
+                B = rhs(rng, A, n, ncol, cls)
+                cnt("strata:order=%d" % n)
+                cnt("strata:nsys>n" if ncol > n else "strata:nsys<n")
+                lines.append("# strata size cls=%s n=%d ncol=%d" % (cls, n, ncol))
+                lines.append("entries %s %s" % (vec(A), vec(B)))
+                lines.append("solve_sys %s %s" % (vec(A), vec(B)))
+                lines.append("msolve_m %d %d %s %d %d %s" % (n, n, vec(A), n, ncol, vec(B)))
+                if cls == "dense":
+                    lines.append("inverses %s" % vec(A))
+                lines.append("r2c %s %d" % (vec(B), n))
+                lines.append("c2r %s %d" % (vec(B), n))
+                lines.append("r2c %s %d" % (vec(B), ncol))
+        # exact special values, exact zeros on / off the diagonal with non-zero pivots
+        for n in (1, 2, 3, 4, 5, 8, 9, 16, 17):
+            A = g_special(rng, n)
+            ncol = rng.choice([1, 2, 3, n + 2])
+            B = special_rhs(rng, n, ncol)
+            cnt("strata:special")
+            lines.append("# strata special n=%d ncol=%d" % (n, ncol))
+            lines.append("entries %s %s" % (vec(A), vec(B)))
+            lines.append("inverses %s" % vec(A))
+            lines.append("routes %s %s" % (vec(A), vec(col(B, n, ncol, 0))))
+        # threshold bands of the routing predicate
+        for n, A in eps_band_matrices(rng):
+            b = [rng.normal() for _ in range(n)]
+            cnt("strata:threshold")
+            lines.append("issym %s" % vec(A))
+            lines.append("ispd %s" % vec(A))
+            lines.append("mis_sym %d %d %s" % (n, n, vec(A)))
+            lines.append("mis_pd %d %d %s" % (n, n, vec(A)))
+            lines.append("routes %s %s" % (vec(A), vec(b)))
+            lines.append("entries %s %s" % (vec(A), vec(b)))
+        # ill-conditioned A (cond up to 1e10) with B = A * X0 for a known integer X0
+        for n in (3, 6, 10, 16, 24):
+            for spd in (False, True):
+                A = g_graded(rng, n, 10 if not spd else 8, spd)
+                ncol = rng.choice([1, 2, n + 1])
+                X0 = [float(rng.randint(-9, 9)) for _ in range(n * ncol)]
+                B = [math.fsum(A[i * n + j] * X0[j * ncol + c] for j in range(n)) for i in range(n) for c in range(ncol)]
+                cnt("strata:illcond")
+                lines.append("# strata illcond n=%d ncol=%d spd=%d" % (n, ncol, spd))
+                lines.append("entries %s %s" % (vec(A), vec(B)))
+                lines.append("inverses %s" % vec(A))
+
+
 # ---------------------------------------------------------------- corpus / generator
 def corpus():
     one, two = f2h(1.0), f2h(2.0)
@@ -617,6 +720,7 @@ def gen(rng, tier):
             lines.append("lu %s" % vec(A))
         if it % 7 == 0:
             lines.append("lu %s" % vec(A))
+    strata(rng, tier, lines, cover)
     # shape errors and degenerate sizes: panics must agree with the model
     z = f2h(0.0)
     for l in ["solve 0 0", "solve_sys 0 0", "invert 0", "solve 3 %s %s %s 1 %s" % (z, z, z, z),
@@ -860,6 +964,15 @@ def oracle(lines, impl):
             sym = all(not (abs(a[r * n + c] - a[c * n + r]) > EPS) for r in range(n) for c in range(r, n))
             exp = sym if op == "issym" else (sym and all(not (a[r * n + r] <= 0) for r in range(n)))
             if st != "ok" or toks != ["1" if exp else "0"]:
+                fails.append(Failure(i, op, "%s returned %s, expected %d" % (op, rep[:20], exp)))
+        elif op in ("mis_sym", "mis_pd"):
+            r, c = int(t[1]), int(t[2])
+            a, p = rvec(3)
+            if r * c != len(a) or st != "ok":
+                continue
+            sym = r == c and all(not (abs(a[x * r + y] - a[y * r + x]) > EPS) for x in range(r) for y in range(x, r))
+            exp = sym if op == "mis_sym" else (sym and all(not (a[x * r + x] <= 0) for x in range(r)))
+            if toks != ["1" if exp else "0"]:
                 fails.append(Failure(i, op, "%s returned %s, expected %d" % (op, rep[:20], exp)))
     dump_stats("C01")
     return fails
